@@ -158,6 +158,29 @@ let b_res_str = function
   | BRPanic subs -> "PANIC"
   | BRFuel -> "FUEL"
 
+
+(* ---- concurrent TaskSet model (Model/TaskSetConc.v): replay of a real trace ----
+   tsr <ntasks> W <i> <i> ... E <event> ...
+   events: w<j>:<b> one shared access of waker j (b = 1: the real compare-exchange failed);
+           c:<b> one shared access of the owner; kt<k> the owner starts take_scheduled(k);
+           kd the owner drops the iterator.  Steps of the model without a shared access (the
+           branch on a non-SLEEPING next, the end of an iteration) are performed automatically.
+   One summary per event: countdown,index/next,next,...  (index -1 = EMPTY; next S = SLEEPING, E = EMPTY) *)
+let ts_summary s =
+  let (cd, ix) = s.thead in
+  Printf.sprintf "%d,%s/%s" (int_of_nat cd) (match ix with None -> "-1" | Some x -> string_of_int (int_of_nat x))
+    (String.concat "," (List.map (function NSleep -> "S" | NIdx None -> "E" | NIdx (Some x) -> string_of_int (int_of_nat x)) s.tnext))
+let rec ts_flush_w s j =
+  match List.nth_opt s.tkwakers j with
+  | Some w when int_of_nat w.kpc = 1 && w.knxt <> NSleep ->
+      (match tk_step s (LStep (nat_of_int (j + 1), false)) with Some s' -> ts_flush_w s' j | None -> s)
+  | _ -> s
+let rec ts_flush_c s =
+  match s.cph with
+  | CIter None | CDrop (None, _) ->
+      (match tk_step s (LStep (O, false)) with Some s' -> ts_flush_c s' | None -> s)
+  | _ -> s
+
 (* ---- pq ---- *)
 let pq_op_of tok =
   match split_on ',' tok with
@@ -387,6 +410,29 @@ let run_case line =
            Buffer.add_string out (" | " ^ string_of_int (int_of_nat s.cerr));
            Buffer.contents out
        | _ -> failwith "qcr: C n E ...")
+  | "tkr" :: n :: "W" :: rest ->
+      let rec split acc = function "E" :: r -> (List.rev acc, r) | x :: r -> split (x :: acc) r | [] -> (List.rev acc, []) in
+      let (ws, evs) = split [] rest in
+      let s0 = tk_init (nat_of_int (ios n)) (List.map (fun x -> nat_of_int (ios x)) ws) in
+      let out = Buffer.create 256 in
+      let apply s l = match tk_step s l with Some s' -> Buffer.add_string out (ts_summary s' ^ " "); s' | None -> Buffer.add_string out "X "; s in
+      let s = List.fold_left (fun s ev ->
+          if String.length ev >= 2 && String.sub ev 0 2 = "kt" then
+            apply (ts_flush_c s) (LCmd (KTake (nat_of_int (ios (String.sub ev 2 (String.length ev - 2))))))
+          else if ev = "kd" then apply s (LCmd KDropIter)
+          else match split_on ':' ev with
+            | [t; b] when t = "c" -> apply s (LStep (O, b = "1"))
+            | [t; b] ->
+                let j = ios (String.sub t 1 (String.length t - 1)) in
+                apply (ts_flush_w s j) (LStep (nat_of_int (j + 1), b = "1"))
+            | _ -> failwith "tsr event") s0 evs in
+      let s = ts_flush_c (List.fold_left ts_flush_w s (List.init (List.length ws) (fun i -> i))) in
+      Buffer.add_string out ("| " ^ ts_summary s ^ " | ");
+      Buffer.add_string out (String.concat " " (List.rev_map (fun x -> string_of_int (int_of_nat x)) s.yielded));
+      Buffer.add_string out (" | " ^ String.concat "" (List.map (fun b -> if b then "1" else "0") s.woken));
+      Buffer.add_string out (" | " ^ string_of_int (int_of_nat s.tpanic));
+      Buffer.add_string out (" | " ^ String.concat "," (List.map (fun w -> string_of_int (int_of_nat w.kpc)) s.tkwakers));
+      Buffer.contents out
   | "bs" :: n :: ops ->
       String.concat " " (List.map b_res_str (b_run (b_init (nat_of_int (ios n))) (List.map b_op ops)))
   | "wm" :: ws ->
